@@ -8,6 +8,8 @@
 #include <igris/event/safe_queue.h>
 #include <igris/osinter/wait.h>
 #include <igris/sync/syslock.h>
+#include <igris/syncxx/event.h>
+#include <chrono>
 #include <memory>
 
 using namespace vpbt;
@@ -99,7 +101,7 @@ void observe(int runner)
             if (wt >= 0)
             {
                 w.ctx[wt].woken = true;
-                w.ctx[wt].expected_future = r.val;
+                w.ctx[wt].expected_future = wide_future(r.val);
                 w.owner.erase(gone);
             }
             r.removed++;
@@ -203,10 +205,10 @@ void run_op(int tid, const Op &o)
         break;
     }
     case O_UNWAIT_ONE:
-        unwait_one(w.queue[o.q], (intptr_t)o.val);
+        unwait_one(w.queue[o.q], (intptr_t)wide_future(o.val));
         break;
     case O_UNWAIT_ALL:
-        unwait_all(w.queue[o.q], (intptr_t)o.val);
+        unwait_all(w.queue[o.q], (intptr_t)wide_future(o.val));
         break;
     case O_PUSH:
         w.sq->push(o.val);
@@ -377,6 +379,27 @@ void t_sched(Src &s, Case &c)
     VP_CHECK(r.sig.empty(), r.sig, "%s", r.msg.c_str());
 }
 
+// -------------------------------------------------------------- the timed wait of igris::event
+// Single-threaded facts about event::wait(duration): a signalled event is reported as such whatever the timeout
+// (negative ones — a deadline that has already passed — included), an unsignalled one times out.
+void t_event_timed(Src &s, Case &c)
+{
+    igris::event ev;
+    bool sig = s.below(4) != 0;
+    long ms = (long)s.pick({-1000, -1, 0, 1, 3});
+    c.log("event %s, wait(%ld ms)", sig ? "signalled" : "not signalled", ms);
+    c.nontrivial = sig && ms <= 0;
+    if (sig)
+        ev.signal();
+    bool r = ev.wait(std::chrono::milliseconds(ms));
+    VP_CHECK(r == sig, "event_timed_wait", "wait(%ld ms) on a%s event returned %d", ms, sig ? " signalled" : "n unsignalled", (int)r);
+    if (sig)
+    {
+        // still signalled (wait does not consume the flag): an untimed wait returns at once
+        ev.wait();
+    }
+}
+
 // -------------------------------------------------------------- exhaustive target
 std::vector<Program> small_programs()
 {
@@ -471,6 +494,9 @@ VP_TARGET("sched", t_sched,
           "waiter returns iff an unwait removed it and with that call's future, unwait_one removes at most one, nothing is "
           "notified after its owner destroyed it, every thread finishes once everything still queued is woken (no lost wake-up / "
           "deadlock), safe_queue pops = pushes with per-producer order; non-trivial = >= 2 threads use the same object and >= 1 pre-emption");
+VP_TARGET("event_timed", t_event_timed,
+          "igris::event::wait(duration), single-threaded: a signalled event reports true for timeouts -1000, -1, 0, 1, 3 ms, an unsignalled one false; non-trivial = signalled with a "
+          "timeout <= 0");
 VP_TARGET("sched_enum", t_sched_enum,
           "16 small programs (2-3 threads x <= 5 operations) x EVERY schedule with <= 3 (quick) / <= 4 (thorough) pre-emptions (1 / 2 for the two programs with three threads of which two park) and <= 1 spurious condition-variable wake-up, by "
           "stateless depth-first search over the scheduler's decision tree; one case = one program, its executions are counted as "
